@@ -67,9 +67,17 @@ def portDirRejected (b : Params) : Bool :=
   | .tcp, .fixedBoth _ _ => true
   | _, _ => false
 
+/-- the `if let Some(source_addr) = self.source_addr { if source_addr.is_ipv4() != self.target_addr.is_ipv4() ..`
+check of `Builder::build`: `true` = the source address is of the other family than the target -/
+def srcFamilyRejected (b : Params) : Bool :=
+  match b.srcV6 with
+  | some s => s != b.v6
+  | none => false
+
 /-- `Builder::build` -/
 def build (b : Params) : R Cfg :=
   if portDirRejected b then .err .badConfig else
+  if srcFamilyRejected b then .err .badConfig else
   if b.firstTtl < 1 then .err .badConfig else
   if b.firstTtl > Consts.core_MAX_TTL then .err .badConfig else
   if b.maxTtl > Consts.core_MAX_TTL then .err .badConfig else
